@@ -32,7 +32,7 @@ def Mgr.addLocal (self : Nat) (m : Mgr) (n : IPNet) (metric : Nat) : Mgr × Bool
   let locals := if m.locals.contains key then m.locals else m.locals ++ [key]
   let e : Entry IPNet := ⟨n, self, self, metric, seq, [], m.st.now⟩
   let r := addRoute cidrCfg self m.st.tab e
-  ({ seq := seq, locals := locals, st := ⟨m.st.now, r.1⟩ }, r.2)
+  ({ m with seq := seq, locals := locals, st := ⟨m.st.now, r.1⟩ }, r.2)
 
 /-- `RemoveLocalRoute(network)` -/
 def Mgr.removeLocal (self : Nat) (m : Mgr) (n : IPNet) : Mgr × Bool :=
